@@ -345,6 +345,11 @@ def all_obligations():
                   'nothing overflows, the invariant is preserved and RUNA/RUNB add 1 or 2 times 2^position; a run that outgrew 900000 accepts no more run symbols',
              functions=['retrieve (run accumulation)'], flags=['--unwind', '4', '--unwinding-assertions'], expect=['RUNA/RUNB add 1 or 2 times', 'the invariant run >= 2'], replayable=True,
              assumed=['the invariant holds initially (run in {0,1}, shift 0, set where a run starts) -- by inspection of the three assignment sites']))
+    for cp, nm in ((0, 'fast'), (1, 'slow'), (2, 'eob')):
+        A(Ob(name=f'decode.run_dump.{nm}', props=['C08', 'C05', 'C06'], kind='lemma', harness='h_decode.c', entry='h_run_dump', defines={'RD_COPY': str(cp)},
+             what='retrieve(), run dump (' + nm + ' copy, extracted verbatim): a run is written only if it fits in the rest of the block, otherwise ERR_OVERFLOW with nothing written; '
+                  'exactly run copies in place, nothing beyond the limit, frequency count updated (block stand-in of 6 entries: the section only compares and advances pointers)',
+             functions=['retrieve (run dump)'], flags=['--unwind', '12', '--unwindset', 'h_run_dump.1:258', '--unwinding-assertions'], expect=['a run that does not fit', 'exactly run copies of the run byte'], replayable=True))
     # ---------------- decode.c decode(): inverse BWT (C06 O6.4, C01 O1.2 decoder side)
     for n, tier in ((3, 'quick'), (4, 'thorough')):
         A(Ob(name=f'decode.ibwt.n{n}', props=['C06', 'C01', 'C05', 'C08'], kind='bounded', tier=tier, harness='h_emit.c', entry='h_decode_ibwt', extra_srcs=['src/crctab.c'], solver='cadical',
